@@ -179,8 +179,8 @@ class MediaQuery(css_parser.util._NewBase):  # css_parser.util.Base):
         ok, seq, store, unused = ProdParser().parse(mediaText,
                                                     'MediaQuery',
                                                     prods)
-        self._wellformed = ok
         if ok:
+            self._wellformed = ok
             try:
                 media_type = store['media_type']
             except KeyError:
